@@ -20,6 +20,12 @@ CLAIMED = {
             'multigraphs with concrete multi-vertex edge geometries; node list, edge permission, weight sum == minimum and geometry continuity asserted per path; '
             'every query is issued twice on the same network object.',
             'DESIGN.md#c07', 'same bounds as C06; source != target', ''),
+    'C11': ('Bounded model checking of split() over every marker vector (one path per vector, markers symbolic 0/1) and of segmentation() over symbolic '
+            'real-or-NaN feature values and thresholds in both comparison modes, including a second run into the same output feature.',
+            'DESIGN.md#c11', 'split: n <= 9 (quick) / 13 (thorough); segmentation: n <= 2/3 observations, <= 3 tested features', ''),
+    'C12': ('Bounded model checking of the interval dynamic programme optimalPartition (and its wiring through optimalSegmentation) on a fully symbolic '
+            'cost matrix: on every path the returned partition is proved optimal against all 2^(N-2) enumerated partitions, for both directions.',
+            'DESIGN.md#c12', 'N <= 5 candidates fully explored (thorough: N = 6 under budget); costs in [0,100]', ''),
 }
 
 NOT_YET = {}
